@@ -748,5 +748,84 @@ def json_key(d):
     return json.dumps(d, sort_keys=True)
 
 
+class CommandLineAgainstLibrary(Part):
+    name = "command_line_against_library_for_every_option_subset"
+    desc = ("every subset of the valued options (-w, -r, -n, --preserve-prefixes, --preserve-addresses, "
+            "--preserve-private-addresses, --preserve-host-bits) under each feature choice (-p, -a, -p -a, -u): the command "
+            "line writes the bytes anonymize_files writes for the same options")
+
+    TEXT = ("hostname seattle-core KeepMe\n ip address 10.1.2.3 255.255.255.0\n ip address 11.11.62.24 255.255.0.0\n"
+            " ip address 12.7.7.7 255.0.0.0\n ip address 172.16.9.9 192.168.4.4\n ipv6 address 2001:db8::1:5/64\nrouter bgp 65001\n"
+            "password KeepMe\nsnmp-server community KeepMe ro\npassword s3cretA\nenable secret KeepMe\n neighbor 138.7.6.5 remote-as 65001\n")
+    OPTS = [("-w", "seattle,core", "sensitive_words"), ("-r", "KeepMe,lab", "reserved_words"), ("-n", "65001,12", "as_numbers"),
+            ("--preserve-prefixes", "12.0.0.0/8,138.0.0.0/8", "preserve_prefixes"), ("--preserve-addresses", "11.11.0.0/16,12.7.0.0/16", "preserve_networks"),
+            ("--preserve-private-addresses", None, None), ("--preserve-host-bits", "4", None)]
+    FEATURES = [["-p"], ["-a"], ["-p", "-a"], ["-u"]]
+
+    def __init__(self, tier, seed):
+        self.tier, self.seed = tier, seed
+
+    def cases(self):
+        return [{"features": f, "mask": m} for f in self.FEATURES for m in range(0, 1 << len(self.OPTS), 8)]
+
+    def run(self, case):
+        from netconan.anonymize_files import anonymize_files
+        from netconan.netconan import main
+
+        res = Res()
+        root = seams.scratch_dir("c16c")
+        try:
+            masks = [case["one"]] if "one" in case else range(case["mask"], case["mask"] + 8)
+            for m in masks:
+                chosen = [o for i, o in enumerate(self.OPTS) if m >> i & 1]
+                argv, kw = ["-s", "saltForTest"] + list(case["features"]), {"preserve_suffix_v4": 8, "preserve_suffix_v6": 8}
+                for flag, val, key in chosen:
+                    argv += [flag] + ([val] if val is not None else [])
+                    if key:
+                        kw[key] = val.split(",")
+                    elif flag == "--preserve-host-bits":
+                        kw["preserve_suffix_v4"] = kw["preserve_suffix_v6"] = int(val)
+                if any(o[0] == "--preserve-private-addresses" for o in chosen):
+                    kw["preserve_networks"] = kw.get("preserve_networks", []) + ["10.0.0.0/8", "172.16.0.0/12", "192.168.0.0/16"]
+                d = os.path.join(root, "m%d" % m)
+                seams.write_tree(os.path.join(d, "in"), {"r1.cfg": self.TEXT, "site b/r2.cfg": self.TEXT.replace("s3cretA", "0therS3cret")})
+                res.evals += 1
+                with seams.capture_logs(), seams.capture_stdio():
+                    try:
+                        main(argv + ["-i", os.path.join(d, "in"), "-o", os.path.join(d, "cli")])
+                        cli = seams.read_tree(os.path.join(d, "cli"))
+                    except (Exception, SystemExit) as e:
+                        cli = "raised %s: %s" % (type(e).__name__, e)
+                    seams.restore_globals()
+                    try:
+                        anonymize_files(os.path.join(d, "in"), os.path.join(d, "lib"), "-p" in case["features"], "-a" in case["features"],
+                                        salt="saltForTest", undo_ip_anon="-u" in case["features"], **kw)
+                        lib = seams.read_tree(os.path.join(d, "lib"))
+                    except Exception as e:
+                        lib = "raised %s: %s" % (type(e).__name__, e)
+                    seams.restore_globals()
+                shutil.rmtree(d, ignore_errors=True)
+                res.nt((tuple(case["features"]), m))
+                res.out(cli == lib)
+                if cli != lib:
+                    what = ""
+                    if isinstance(cli, dict) and isinstance(lib, dict):
+                        for n in sorted(set(cli) | set(lib)):
+                            if cli.get(n) != lib.get(n):
+                                a, b = (cli.get(n) or b"").split(b"\n"), (lib.get(n) or b"").split(b"\n")
+                                k = [i for i in range(min(len(a), len(b))) if a[i] != b[i]]
+                                what = "%s line %r: command line %r, library %r" % (n, self.TEXT.split("\n")[k[0]] if k else "?", a[k[0]] if k else a[-1:], b[k[0]] if k else b[-1:])
+                                break
+                    else:
+                        what = "command line: %r ; library: %r" % (str(cli)[:150], str(lib)[:150])
+                    res.violation("command-line-and-library-differ|" + "+".join(o[0].lstrip("-") for o in chosen),
+                                  "argv %r vs anonymize_files(%r): %s" % (argv, kw, what), {"features": case["features"], "mask": case["mask"], "one": m})
+            if "one" not in case:
+                res.samples.append(case)
+        finally:
+            shutil.rmtree(root, ignore_errors=True)
+        return res
+
+
 def parts(tier, seed):
-    return [TreesPart(tier, seed), EntryPoints(tier, seed), SingleFile(tier, seed), RepeatedRuns(tier, seed), OptionValues(tier, seed), Names(tier, seed), PathRelations(tier, seed)]
+    return [TreesPart(tier, seed), EntryPoints(tier, seed), SingleFile(tier, seed), RepeatedRuns(tier, seed), OptionValues(tier, seed), Names(tier, seed), PathRelations(tier, seed), CommandLineAgainstLibrary(tier, seed)]
